@@ -1428,6 +1428,40 @@ theorem C11_unbiased_binary_terngrad {v : List Rat} {x : Rat} (hx : x ∈ v) :
       · rw [if_pos hq, if_pos (by exact_mod_cast hq)]
       · rw [if_neg hq, if_neg (by exact_mod_cast hq)]
 
+/-! ## admissible values: what the correspondence check compares (no draws involved) -/
+
+theorem admCoord_eq {L : Nat} {mn mx x : Rat} (hne : mx ≠ mn) :
+    admCoord L mn mx x =
+      (levelVal L mn mx (tOf L mn mx x).floor, levelVal L mn mx (tOf L mn mx x).ceil) := by
+  unfold admCoord levelVal tOf
+  rw [if_neg hne]
+
+/-- **Admissible outputs.**  Whatever the draws are, every coordinate of the uniform, binary and
+TernGrad quantizers is one of the two values listed by `admUniform` / `admBinary` / `admTern`
+(these lists do not depend on the draws: they are what the harness compares the real outputs with,
+so the comparison does not depend on how an implementation turns its random stream into up/down
+decisions). -/
+theorem C11_admissible {L : Nat} (hL : 2 ≤ L) (σ : Rat) {v : List Rat} {x : Rat}
+    (hx : x ∈ v) (u : Rat) :
+    (uniformCoord L (minL v) (maxL v) u x = (admCoord L (minL v) (maxL v) x).1 ∨
+      uniformCoord L (minL v) (maxL v) u x = (admCoord L (minL v) (maxL v) x).2) ∧
+    (binaryCoord (minL v) (maxL v) u x = minL v ∨ binaryCoord (minL v) (maxL v) u x = maxL v) ∧
+    (binaryCoord 0 (maxL ((v.map (clipCoord σ)).map rabs)) u (rabs (clipCoord σ x)) * sgn (clipCoord σ x) = 0 ∨
+      binaryCoord 0 (maxL ((v.map (clipCoord σ)).map rabs)) u (rabs (clipCoord σ x)) * sgn (clipCoord σ x) =
+        maxL ((v.map (clipCoord σ)).map rabs) * sgn (clipCoord σ x)) := by
+  refine ⟨?_, (C11_binary hx u).1, ?_⟩
+  · by_cases hne : maxL v = minL v
+    · have : admCoord L (minL v) (maxL v) x = (minL v, minL v) := by unfold admCoord; rw [if_pos hne]
+      rw [this, hne, uniformCoord_const]; simp
+    · rw [admCoord_eq hne]
+      exact (C11_neighbours hL hx u).1
+  · rw [binaryCoord_unfold]
+    split_ifs <;> simp
+
+theorem admUniform_getElem (L : Nat) (v : List Rat) (i : Nat) (h : i < (admUniform L v).length)
+    (hv : i < v.length) : (admUniform L v)[i] = admCoord L (minL v) (maxL v) v[i] := by
+  simp [admUniform]
+
 /-! ## the two repairs change nothing else -/
 
 /-- the source before the repair, with the division Option-valued (`none` = the float `0/0 = NaN`) -/
@@ -1502,6 +1536,9 @@ example : (∀ u ∈ ([0, 0, 1/2] : List Rat), 0 ≤ u ∧ u < 1) ∧
     simp only [List.mem_cons, List.not_mem_nil, or_false] at hx
     rw [hmn, hmx]
     rcases hx with rfl | rfl | rfl <;> simp
+example := C11_admissible (L := 4) (by norm_num) 2 (v := [0, 1, 2, 5]) (x := 1) (by simp) (1 / 8)
+example : admUniform 4 [0, 1, 2, 5] = [(0, 0), (0, 5/3), (5/3, 10/3), (5, 5)] := by decide +kernel
+example : admTern 2 [0, -1, 2, 9] = [(0, 0), (0, -5), (0, 5), (0, 5)] := by decide +kernel
 -- TernGrad with σ = 2 on [0,1,2,9]: 9 is clipped to 5, levels {0, ±5}
 example := C11_terngrad (σ := 2) (by norm_num) (v := [0, 1, 2, 9]) (x := 9) (by simp) (1 / 4)
 example : ternQ 2 [1/4, 1/4, 3/4, 3/4] [0, -1, 2, 9] = [0, 0, 0, 5] := by decide +kernel
